@@ -44,6 +44,64 @@ def rand_graph(rng, n, dag):
     return g
 
 
+def multi_crate_part(check):
+    """folder output: one back-end value writes the modules of all crates one after the other.  Two or three crates define items
+    with the *same* names (plus their own); every module must hold each of its crate's items exactly once, in dependency order"""
+    rng = check.rng
+    ts = [m_path("typeshare")]
+    g = Gen(rng)
+    mreqs, rreqs, meta, names = [], [], [], set()
+    for k in range(18 if check.thorough else 6):
+        crates = rng.sample(["alpha", "beta", "gamma_x", "zeta"], rng.randint(2, 3))
+        shared = rng.sample(["Settings", "Error", "Item", "Config"], 2)
+        jobs, expect = [], {}
+        for c in crates:
+            own = "Own%s%d" % (c.title().replace("_", ""), k)
+            items = [{"kind": "alias", "attrs": list(ts), "ident": shared[0] + "List", "generics": [], "ty": t_path("Vec", [t_path(shared[0])])},
+                     {"kind": "struct", "attrs": list(ts), "ident": shared[0], "generics": [], "fields": ("named", [field([], "inner", t_path(shared[1]))])},
+                     {"kind": "enum", "attrs": list(ts), "ident": shared[1], "generics": [],
+                      "variants": [{"attrs": [], "ident": "A", "fields": ("unit",)}, {"attrs": [], "ident": "B", "fields": ("unit",)}]},
+                     {"kind": "struct", "attrs": list(ts), "ident": own, "generics": [("ty", "T")],
+                      "fields": ("named", [field([], "all", t_path(shared[0] + "List")), field([], "t", t_path("T"))])}]
+            rng.shuffle(items)
+            f = {"attrs": [], "items": items}
+            jobs.append({"crate": c, "file_name": c + ".out", "path": "%s/src/lib.rs" % c, "file": f})
+            expect[c] = [shared[0] + "List", shared[0], shared[1], own]
+            names |= l2.names_of(f)
+        for lang in ORDER_LANGS:
+            cfg = {"package": "proto" if lang == "go" else "com.example", "type_mappings": {}}
+            m, r, texts = l2.requests(lang, cfg, jobs, g, multi_file=True)
+            mreqs.append(m); rreqs.append(r); meta.append((lang, expect, texts))
+    mans = [l2.norm(a) for a in model(mreqs, names=names)]
+    rans = [l2.norm(a) for a in runner(rreqs)]
+    mismatch = None
+    for (lang, expect, texts), ma, ra in zip(meta, mans, rans):
+        check.saw(("multi-crate", lang, json.dumps(expect, sort_keys=True)), nontrivial=True)
+        check.count("multi-crate-" + lang)
+        if "ok" in ra:
+            for c, want in expect.items():
+                text = ra["ok"].get(c, "")
+                defs = [next(x for x in (m.groups() if m.groups() else (m.group(0),)) if x) for m in re.finditer(DEF_RX[lang], text, re.M)]
+                for w in want:
+                    if defs.count(w) != 1:
+                        check.violation("%s folder output: the module of crate `%s` defines `%s` %d time(s) (its crate has exactly one; other "
+                                        "crates of the run define items of the same name)" % (lang, c, w, defs.count(w)),
+                                        case={"lang": lang, "sources": texts}, impl=ra, model=ma, failing_input=True)
+                        return
+                pos = {d: i for i, d in enumerate(defs)}
+                if not (pos[want[2]] < pos[want[1]] < pos[want[0]] < pos[want[3]]):
+                    check.violation("%s folder output: the module of crate `%s` does not write its definitions after the ones they use: %s"
+                                    % (lang, c, defs), case={"lang": lang, "sources": texts}, impl=ra, model=ma, failing_input=True)
+                    return
+        if ma != ra and mismatch is None:
+            mismatch = (lang, texts, ma, ra)
+    if mismatch:
+        lang, texts, ma, ra = mismatch
+        check.violation("%s folder output differs from the model on crates that define items of the same names" % lang,
+                        case={"lang": lang, "sources": texts}, impl=ra, model=ma, failing_input=False,
+                        broken="correspondence L2 generate (multi-file; theorems TsV.C11.*)")
+
+
 def run(check):
     rng = check.rng
     nmax = 4 if check.thorough else 3
@@ -341,6 +399,8 @@ def run(check):
     _run_graphs(check)
     if not check.violations:
         order_part(check)
+    if not check.violations:
+        multi_crate_part(check)
     check.rule += ("; end to end: programs of 2-8 (thorough 10) items whose reference graph (DAGs and cyclic) is placed at 13 kinds of "
                    "positions (field, Vec, Option, HashMap value, array, slice, generic argument, nested generic argument, Box, tuple "
                    "variant, struct-variant field, alias target), random source order, optional serde renames, through "
